@@ -12,8 +12,8 @@ def main(run):
                 'flatten_with_path, flatten_with_accessor, treespec_dict / defaultdict / from_collection, flatten_one_level, tree_paths), '
                 'the own flags, get(dict) / get(defaultdict) / get()[dict], round trips and OrderedDict; TLC validates the trace; '
                 'non-trivial = histories with False-inside-True or an exceptional exit through >= 2 blocks')
-    L = 5 if quick else 7
-    hs = R.exhaustive_histories(run, 'ctx', L, depth=3 if quick else 4)
+    L = 5 if quick else 6
+    hs = R.exhaustive_histories(run, 'ctx', L, depth=3 if quick else 4, cap=None if quick else 40000, seed=run.seed)
     run.extra['exhaustive_history_length'] = L
     sim = R.simulated_histories(run, 'both', 200 if quick else 3000, 12, run.seed, ctx_depth=5)
     rnd = R.random_histories('both', 200 if quick else 4000, 40, run.seed + 1)
